@@ -1,5 +1,6 @@
 """C11 — views select exactly the described compartments, in local or global scope."""
 import itertools
+import copy
 import math
 
 PROP_FILES = ["Props/C11.v"]
@@ -214,6 +215,30 @@ def run(ctx):
         except Exception as ex:
             import traceback
             viol.append({"kind": "a write through a view raised", "fixture": name, "error": repr(ex)[:300], "trace": traceback.format_exc()[-400:]})
+
+    # ---- add_to_group through views that were created BEFORE the group existed
+    try:
+        for name, mod, drop in fixtures(rng):
+            n = len(mod.nodes)
+            if n < 3:
+                continue
+            for rep in range(ctx.budget(2, 8)):
+                m = copy.deepcopy(mod)
+                ra = sorted(rng.sample(range(n), rng.randint(1, n - 1)))
+                rb = sorted(rng.sample(range(n), rng.randint(1, n - 1)))
+                with quiet():
+                    va, vb = m.select(nodes=ra), m.select(nodes=rb)       # both views exist before the group does
+                    va.add_to_group("late")
+                    vb.add_to_group("late")
+                    got = sorted(int(x) for x in m.groups["late"])
+                    sel = sorted(int(x) for x in m.late._nodes_in_view)
+                evals += 1
+                if got != sorted(set(ra) | set(rb)) or sel != got:
+                    viol.append({"kind": "add_to_group through two views created before the group existed does not give the union of their rows",
+                                 "fixture": name, "rows_a": ra, "rows_b": rb, "group": got, "selected_by_name": sel})
+    except Exception as ex:
+        import traceback
+        viol.append({"kind": "add_to_group checks raised", "error": repr(ex)[:300], "trace": traceback.format_exc()[-400:]})
 
     # ---- name selectors (channels, synapse types, groups) and selections of synapses through views
     try:
